@@ -2,21 +2,24 @@
 // resources.CRDTValue interface (Init/Read/Write/Merge) and encoding/gob, on scripted op histories.
 //
 // Input (stdin), one JSON case per line:
-//   {"id":N, "type":"gcounter"|"aworset"|"lww", "ids":"str"|"num",
-//    "ops":[ ["W", r, v]            gcounter: replica r writes increment v
-//            ["W", r, cmd, e]       sets: replica r writes cmd (1 add, 2 remove) of element e
-//            ["S", r, g]            snapshot of replica r's state appended to the message pool; g=1: the
-//                                   snapshot travels through a real gob encoder/decoder (as the RPC does)
-//            ["D", dst, m]          replica dst merges pool[m]  (any m, any number of times)
-//            ["X", adds, rems]      lww only: a state built by GobDecode from a stream with the given
-//                                   [[e, ts], ...] pairs is appended to the pool (state received from
-//                                   another process whose clock we do not control)
-//          ]}
+//
+//	{"id":N, "type":"gcounter"|"aworset"|"lww", "ids":"str"|"num",
+//	 "ops":[ ["W", r, v]            gcounter: replica r writes increment v
+//	         ["W", r, cmd, e]       sets: replica r writes cmd (1 add, 2 remove) of element e
+//	         ["S", r, g]            snapshot of replica r's state appended to the message pool; g=1: the
+//	                                snapshot travels through a real gob encoder/decoder (as the RPC does)
+//	         ["D", dst, m]          replica dst merges pool[m]  (any m, any number of times)
+//	         ["X", adds, rems]      lww only: a state built by GobDecode from a stream with the given
+//	                                [[e, ts], ...] pairs is appended to the pool (state received from
+//	                                another process whose clock we do not control)
+//	       ]}
+//
 // Output, one JSON line per case:
-//   {"id":N, "reads":[...], "ts":[...], "final":{"r":read}, "states":{"r":canon}, "pool":[canon], "err":""}
-//   reads[i]: Read() of the replica affected by op i (null for S/X); gcounter: number; sets: sorted elements
-//   ts[i]:    lww: the timestamp (UnixNano) stored by write op i, observed through GobEncode (else 0)
-//   canon:    state projection obtained from the gob encoding, maps sorted by key
+//
+//	{"id":N, "reads":[...], "ts":[...], "final":{"r":read}, "states":{"r":canon}, "pool":[canon], "err":""}
+//	reads[i]: Read() of the replica affected by op i (null for S/X); gcounter: number; sets: sorted elements
+//	ts[i]:    lww: the timestamp (UnixNano) stored by write op i, observed through GobEncode (else 0)
+//	canon:    state projection obtained from the gob encoding, maps sorted by key
 package main
 
 import (
@@ -39,6 +42,15 @@ type kase struct {
 	Type string            `json:"type"`
 	IDs  string            `json:"ids"`
 	Ops  []json.RawMessage `json:"ops"`
+	// states on which the semilattice laws are checked directly at the end: ["p", i] pool entry, ["r", r] replica
+	LawSet [][]interface{} `json:"lawset"`
+}
+
+type lawFail struct {
+	Law string      `json:"law"` // infl | comm | idem | assoc
+	At  []int       `json:"at"`  // op index (infl) or indices into lawset
+	L   interface{} `json:"l"`
+	R   interface{} `json:"r"`
 }
 
 type result struct {
@@ -48,6 +60,7 @@ type result struct {
 	Final  map[string]interface{} `json:"final"`
 	States map[string]interface{} `json:"states"`
 	Pool   []interface{}          `json:"pool"`
+	Laws   []lawFail              `json:"laws"`
 	Err    string                 `json:"err"`
 }
 
@@ -144,7 +157,9 @@ func (e *env) canonGC(c resources.GCounter) pairs {
 	it := c.Iterator()
 	for !it.Done() {
 		k, v, _ := it.Next()
-		out = append(out, [2]int64{e.num(k), int64(v)})
+		if v != 0 { // an entry 0 and a missing entry are indistinguishable through Read/Merge/compare
+			out = append(out, [2]int64{e.num(k), int64(v)})
+		}
 	}
 	return sortPairs(out)
 }
@@ -243,6 +258,15 @@ func (e *env) canon(s resources.CRDTValue) (interface{}, error) {
 	return nil, fmt.Errorf("unknown CRDT value %T", s)
 }
 
+func (e *env) canonStr(s resources.CRDTValue) (string, interface{}) {
+	c, err := e.canon(s)
+	if err != nil {
+		panic("canon: " + err.Error())
+	}
+	b, _ := json.Marshal(c)
+	return string(b), c
+}
+
 func lookup(p pairs, k int64) (int64, bool) {
 	for _, x := range p {
 		if x[0] == k {
@@ -257,6 +281,7 @@ func runCase(k kase) (res result) {
 	res.Final = map[string]interface{}{}
 	res.States = map[string]interface{}{}
 	res.Pool = []interface{}{}
+	res.Laws = []lawFail{}
 	e := &env{typ: k.Type, ids: k.IDs, back: map[string]int64{}}
 	defer func() {
 		if r := recover(); r != nil {
@@ -321,9 +346,18 @@ func runCase(k kase) (res result) {
 					}
 				}
 			}
+			before := reps[r]
 			reps[r] = s
 			res.Reads = append(res.Reads, e.read(s))
 			res.Ts = append(res.Ts, ts)
+			// write_inflationary, checked on the real Merge: before ⊔ after == after (both argument orders)
+			as, ac := e.canonStr(s)
+			if ms, mc := e.canonStr(before.Merge(s)); ms != as {
+				res.Laws = append(res.Laws, lawFail{Law: "infl", At: []int{len(res.Reads) - 1, 0}, L: mc, R: ac})
+			}
+			if ms, mc := e.canonStr(s.Merge(before)); ms != as {
+				res.Laws = append(res.Laws, lawFail{Law: "infl", At: []int{len(res.Reads) - 1, 1}, L: mc, R: ac})
+			}
 		case "S":
 			r := geti(1)
 			s := get(r)
@@ -378,6 +412,40 @@ func runCase(k kase) (res result) {
 			return
 		}
 		res.States[key] = c
+	}
+	var ls []resources.CRDTValue
+	for _, ref := range k.LawSet {
+		idx := int64(ref[1].(float64))
+		if ref[0].(string) == "p" {
+			ls = append(ls, pool[idx])
+		} else {
+			ls = append(ls, get(idx))
+		}
+	}
+	for i, a := range ls {
+		as, ac := e.canonStr(a)
+		if ms, mc := e.canonStr(a.Merge(a)); ms != as {
+			res.Laws = append(res.Laws, lawFail{Law: "idem", At: []int{i}, L: mc, R: ac})
+		}
+		for j, b := range ls {
+			if i < j {
+				ls1, lc := e.canonStr(a.Merge(b))
+				rs1, rc := e.canonStr(b.Merge(a))
+				if ls1 != rs1 {
+					res.Laws = append(res.Laws, lawFail{Law: "comm", At: []int{i, j}, L: lc, R: rc})
+				}
+			}
+			for l, c := range ls {
+				if i == j || j == l || i == l {
+					continue
+				}
+				ls1, lc := e.canonStr(a.Merge(b).Merge(c))
+				rs1, rc := e.canonStr(a.Merge(b.Merge(c)))
+				if ls1 != rs1 {
+					res.Laws = append(res.Laws, lawFail{Law: "assoc", At: []int{i, j, l}, L: lc, R: rc})
+				}
+			}
+		}
 	}
 	for _, s := range pool {
 		c, err := e.canon(s)
